@@ -37,12 +37,12 @@ type wtMsg struct {
 }
 
 type wtCase struct {
-	Server   bool    `json:"writer_is_server"`
-	WBuf     int     `json:"write_buf"`
-	RBuf     int     `json:"read_buf"`
-	Pool     bool    `json:"pool"`
-	Frag     int     `json:"read_fragment"` // 0 whole, n>0 max n bytes per read
-	Msgs     []wtMsg `json:"msgs"`
+	Server bool    `json:"writer_is_server"`
+	WBuf   int     `json:"write_buf"`
+	RBuf   int     `json:"read_buf"`
+	Pool   bool    `json:"pool"`
+	Frag   int     `json:"read_fragment"` // 0 whole, n>0 max n bytes per read
+	Msgs   []wtMsg `json:"msgs"`
 	// ReadLimit (0 = none) is set on the reading connection, as the engine does on every
 	// connection; it is never below the longest message of the case, so nothing may be refused
 	ReadLimit int64  `json:"read_limit"`
